@@ -220,7 +220,7 @@ GateRewrite(h, m, t) ==
 RewriteAccepted ==
     LET m == MvhApplies(c.mvh, c.host, BH)
         t == TcpsApplies(c.tcps, c.host)
-    IN (Clean(c.host) # <<>>) =>
+    IN (Clean(c.host) # <<>> /\ Len(c.host) <= 200) =>
          /\ HostOK(c.host, GateRewrite(c.host, m, t), c.mvh, c.tcps, BH, <<127, 0, 0, 1>>, 40000,
                    1600000000, 1800000000)
          /\ ~HostOK(c.host, <<120>> \o c.host, c.mvh, c.tcps, BH, <<127, 0, 0, 1>>, 40000,
@@ -230,7 +230,8 @@ Emit == Export => PrintT(<<"CASE", ToJson(c)>>)
 
 ----------------------------------------------------------------------------
 (* Host universe of the self-check / case export: plain, case and dot variants, Forge and
-   TCPShield suffixes, the backend's own name, empty, non-ASCII (UTF-8), 130 bytes. *)
+   TCPShield suffixes, the backend's own name, empty, non-ASCII (UTF-8), 130 bytes; addresses with
+   300 / 1000 bytes of forwarding-like data appended after a NUL, 255 two-byte characters. *)
 HostsDef == {
     <<97, 46, 101, 120>>,
     <<65, 46, 69, 120, 46>>,
@@ -246,5 +247,8 @@ HostsDef == {
     <<46>>,
     <<195, 169, 46, 101, 120>>,
     <<115, 117, 98, 46, 97, 46, 101, 120>>,
-    <<120, 120, 120, 120, 120, 120, 120, 120, 120, 120, 120, 120, 120, 120, 120, 120, 120, 120, 120, 120, 120, 120, 120, 120, 120, 120, 120, 120, 120, 120, 120, 120, 120, 120, 120, 120, 120, 120, 120, 120, 120, 120, 120, 120, 120, 120, 120, 120, 120, 120, 120, 120, 120, 120, 120, 120, 120, 120, 120, 120, 120, 120, 120, 120, 120, 120, 120, 120, 120, 120, 120, 120, 120, 120, 120, 120, 120, 120, 120, 120, 120, 120, 120, 120, 120, 120, 120, 120, 120, 120, 120, 120, 120, 120, 120, 120, 120, 120, 120, 120, 120, 120, 120, 120, 120, 120, 120, 120, 120, 120, 120, 120, 120, 120, 120, 120, 120, 120, 120, 120, 120, 120, 120, 120, 120, 120, 120, 120, 120, 120>> }
+    <<120, 120, 120, 120, 120, 120, 120, 120, 120, 120, 120, 120, 120, 120, 120, 120, 120, 120, 120, 120, 120, 120, 120, 120, 120, 120, 120, 120, 120, 120, 120, 120, 120, 120, 120, 120, 120, 120, 120, 120, 120, 120, 120, 120, 120, 120, 120, 120, 120, 120, 120, 120, 120, 120, 120, 120, 120, 120, 120, 120, 120, 120, 120, 120, 120, 120, 120, 120, 120, 120, 120, 120, 120, 120, 120, 120, 120, 120, 120, 120, 120, 120, 120, 120, 120, 120, 120, 120, 120, 120, 120, 120, 120, 120, 120, 120, 120, 120, 120, 120, 120, 120, 120, 120, 120, 120, 120, 120, 120, 120, 120, 120, 120, 120, 120, 120, 120, 120, 120, 120, 120, 120, 120, 120, 120, 120, 120, 120, 120, 120>>,
+    <<97, 46, 101, 120, 0, 117, 106, 122, 46, 100, 101, 56, 103, 120, 125, 100, 54, 110, 99, 102, 49, 48, 101, 112, 102, 57, 49, 100, 123, 104, 111, 44, 44, 125, 100, 123, 125, 122, 100, 111, 99, 57, 105, 115, 48, 106, 56, 104, 123, 116, 57, 95, 108, 103, 125, 123, 44, 109, 120, 103, 57, 101, 123, 100, 58, 110, 53, 95, 56, 49, 117, 51, 125, 51, 120, 116, 112, 108, 112, 102, 123, 116, 55, 53, 118, 50, 115, 34, 101, 104, 54, 48, 107, 118, 106, 53, 48, 99, 45, 101, 57, 123, 117, 118, 119, 34, 53, 125, 51, 101, 102, 114, 52, 45, 101, 100, 116, 46, 123, 95, 50, 115, 121, 45, 119, 98, 51, 119, 107, 58, 104, 53, 100, 110, 115, 105, 112, 122, 122, 53, 102, 107, 50, 122, 57, 114, 105, 49, 57, 114, 48, 119, 95, 121, 111, 106, 102, 108, 106, 111, 45, 111, 97, 53, 125, 108, 113, 115, 97, 106, 48, 56, 120, 58, 123, 117, 105, 54, 58, 46, 95, 100, 51, 95, 57, 122, 122, 122, 122, 103, 52, 44, 122, 100, 109, 101, 110, 50, 107, 104, 118, 34, 100, 103, 97, 123, 106, 56, 103, 120, 58, 98, 101, 110, 58, 121, 106, 44, 113, 119, 34, 120, 52, 104, 104, 53, 51, 52, 52, 116, 102, 106, 103, 118, 113, 52, 107, 55, 98, 110, 55, 120, 106, 56, 98, 55, 116, 46, 102, 113, 55, 120, 107, 119, 111, 56, 56, 54, 118, 44, 111, 58, 109, 112, 122, 111, 109, 55, 53, 119, 98, 98, 114, 52, 113, 109, 34, 119, 50, 119, 120, 102, 111, 103, 111, 52, 109, 118, 110, 52, 58, 58, 97, 52, 46, 119, 46, 102, 45, 104>>,
+    <<97, 46, 101, 120, 0, 121, 109, 52, 108, 49, 44, 118, 102, 122, 51, 122, 102, 107, 107, 105, 98, 106, 125, 51, 46, 106, 58, 34, 52, 45, 119, 106, 57, 57, 105, 98, 97, 46, 103, 55, 105, 49, 109, 110, 98, 113, 110, 115, 54, 112, 125, 117, 113, 56, 48, 105, 100, 119, 51, 45, 125, 55, 48, 54, 105, 56, 106, 55, 54, 98, 50, 108, 34, 97, 106, 108, 106, 52, 58, 104, 57, 100, 117, 95, 55, 55, 57, 52, 103, 57, 100, 112, 109, 114, 99, 103, 54, 50, 57, 98, 101, 50, 117, 58, 54, 34, 54, 109, 114, 50, 54, 56, 52, 54, 112, 55, 113, 57, 109, 50, 105, 48, 104, 122, 50, 117, 101, 45, 112, 49, 101, 110, 45, 116, 104, 106, 46, 45, 120, 106, 113, 105, 51, 111, 103, 122, 53, 107, 45, 111, 107, 49, 54, 122, 118, 48, 109, 119, 117, 102, 120, 98, 118, 57, 51, 50, 98, 121, 118, 55, 58, 115, 54, 101, 104, 111, 103, 102, 113, 114, 99, 108, 114, 105, 49, 95, 113, 122, 106, 56, 54, 123, 53, 117, 102, 114, 100, 108, 49, 101, 114, 98, 44, 102, 113, 102, 34, 111, 101, 113, 104, 51, 97, 118, 57, 48, 114, 58, 105, 99, 55, 112, 104, 107, 113, 100, 108, 109, 116, 44, 116, 55, 110, 115, 50, 54, 95, 108, 114, 119, 98, 113, 99, 97, 98, 54, 57, 109, 54, 52, 112, 50, 103, 45, 46, 49, 45, 53, 56, 122, 54, 116, 110, 111, 118, 109, 44, 105, 122, 119, 100, 105, 97, 101, 44, 113, 49, 107, 100, 102, 45, 121, 54, 45, 115, 34, 112, 115, 99, 51, 108, 107, 114, 50, 97, 113, 120, 118, 57, 117, 112, 99, 116, 110, 119, 108, 97, 118, 121, 102, 52, 114, 54, 46, 109, 112, 54, 97, 102, 113, 102, 106, 122, 125, 99, 122, 98, 116, 116, 44, 111, 102, 125, 55, 106, 45, 34, 121, 117, 53, 106, 115, 58, 46, 106, 99, 54, 44, 49, 54, 105, 55, 54, 123, 98, 95, 125, 95, 46, 111, 102, 98, 99, 105, 44, 120, 103, 121, 50, 57, 100, 44, 98, 44, 56, 95, 112, 53, 113, 97, 51, 101, 54, 56, 102, 45, 55, 101, 52, 113, 101, 113, 112, 110, 111, 46, 51, 53, 121, 101, 52, 95, 115, 99, 58, 44, 46, 109, 101, 34, 106, 118, 113, 46, 116, 58, 123, 105, 97, 52, 100, 53, 114, 95, 103, 110, 95, 53, 115, 55, 115, 51, 51, 51, 104, 57, 109, 116, 102, 52, 98, 115, 51, 101, 54, 50, 114, 121, 110, 110, 101, 125, 102, 106, 55, 113, 120, 105, 34, 44, 54, 114, 104, 120, 111, 53, 53, 122, 98, 107, 97, 53, 95, 50, 122, 116, 106, 48, 119, 121, 117, 104, 118, 97, 117, 118, 122, 104, 109, 97, 115, 113, 120, 101, 122, 121, 125, 101, 120, 49, 114, 100, 114, 103, 100, 45, 115, 44, 106, 112, 114, 49, 54, 117, 109, 120, 49, 98, 44, 122, 57, 57, 110, 102, 100, 48, 50, 58, 105, 46, 115, 53, 100, 57, 105, 107, 52, 48, 118, 115, 116, 113, 46, 113, 122, 46, 112, 116, 52, 57, 45, 122, 104, 107, 46, 107, 101, 110, 54, 53, 57, 111, 50, 118, 50, 49, 105, 57, 109, 112, 102, 108, 118, 57, 102, 117, 112, 120, 113, 123, 109, 98, 48, 121, 48, 55, 110, 121, 114, 118, 100, 53, 114, 123, 120, 105, 95, 54, 55, 44, 110, 102, 114, 112, 121, 122, 46, 50, 49, 116, 98, 105, 99, 49, 52, 125, 53, 97, 101, 122, 55, 51, 50, 112, 103, 111, 106, 106, 55, 95, 103, 46, 51, 102, 57, 99, 97, 105, 111, 123, 99, 46, 116, 105, 44, 113, 55, 44, 49, 104, 103, 101, 116, 55, 125, 109, 121, 113, 111, 34, 97, 97, 56, 116, 51, 114, 117, 46, 112, 52, 55, 112, 57, 112, 98, 48, 46, 116, 100, 98, 109, 53, 95, 46, 48, 102, 113, 111, 45, 49, 120, 111, 53, 99, 118, 48, 120, 95, 122, 109, 97, 115, 54, 101, 110, 53, 109, 116, 109, 111, 51, 111, 113, 115, 103, 58, 53, 58, 108, 111, 53, 48, 45, 100, 34, 106, 122, 100, 110, 98, 34, 106, 48, 100, 100, 108, 122, 50, 117, 104, 102, 107, 118, 109, 108, 46, 55, 51, 99, 116, 45, 121, 120, 118, 50, 107, 103, 97, 102, 114, 102, 119, 48, 104, 57, 110, 121, 119, 116, 49, 102, 100, 52, 109, 120, 56, 50, 109, 117, 120, 52, 98, 44, 48, 112, 44, 122, 99, 121, 99, 51, 101, 100, 113, 109, 101, 34, 118, 120, 114, 118, 58, 99, 113, 117, 114, 116, 97, 34, 44, 101, 98, 111, 103, 52, 51, 121, 113, 49, 53, 105, 53, 108, 97, 116, 106, 34, 112, 117, 117, 51, 120, 34, 102, 54, 109, 122, 107, 112, 48, 101, 46, 99, 52, 57, 56, 117, 107, 49, 103, 101, 113, 58, 102, 110, 103, 48, 53, 50, 108, 111, 105, 48, 51, 58, 95, 112, 56, 45, 104, 115, 115, 114, 123, 114, 120, 113, 113, 109, 50, 112, 108, 112, 112, 106, 115, 125, 109, 117, 101, 122, 113, 112, 54, 55, 111, 46, 103, 46, 51, 99, 103, 97, 52, 111, 50, 120, 99, 115, 111, 104, 100, 109, 34, 125, 109, 101, 120, 54, 108, 50, 34, 113, 45, 97, 103, 44, 34, 58, 119, 110, 99, 120, 118, 106, 99, 110, 113, 99, 34, 46, 110, 97, 117, 48, 95, 120, 108, 58, 116, 101, 110, 99, 53, 57, 52, 101, 48, 103, 122, 45, 57, 106, 44, 56, 102, 46, 107, 122, 114, 48, 115, 45, 116, 48, 100, 116, 123, 119, 48, 48, 98, 120, 46, 109, 122, 122, 110, 97, 49, 107, 49, 104, 102, 122, 123, 120, 51, 107, 105>>,
+    <<195, 169, 195, 169, 195, 169, 195, 169, 195, 169, 195, 169, 195, 169, 195, 169, 195, 169, 195, 169, 195, 169, 195, 169, 195, 169, 195, 169, 195, 169, 195, 169, 195, 169, 195, 169, 195, 169, 195, 169, 195, 169, 195, 169, 195, 169, 195, 169, 195, 169, 195, 169, 195, 169, 195, 169, 195, 169, 195, 169, 195, 169, 195, 169, 195, 169, 195, 169, 195, 169, 195, 169, 195, 169, 195, 169, 195, 169, 195, 169, 195, 169, 195, 169, 195, 169, 195, 169, 195, 169, 195, 169, 195, 169, 195, 169, 195, 169, 195, 169, 195, 169, 195, 169, 195, 169, 195, 169, 195, 169, 195, 169, 195, 169, 195, 169, 195, 169, 195, 169, 195, 169, 195, 169, 195, 169, 195, 169, 195, 169, 195, 169, 195, 169, 195, 169, 195, 169, 195, 169, 195, 169, 195, 169, 195, 169, 195, 169, 195, 169, 195, 169, 195, 169, 195, 169, 195, 169, 195, 169, 195, 169, 195, 169, 195, 169, 195, 169, 195, 169, 195, 169, 195, 169, 195, 169, 195, 169, 195, 169, 195, 169, 195, 169, 195, 169, 195, 169, 195, 169, 195, 169, 195, 169, 195, 169, 195, 169, 195, 169, 195, 169, 195, 169, 195, 169, 195, 169, 195, 169, 195, 169, 195, 169, 195, 169, 195, 169, 195, 169, 195, 169, 195, 169, 195, 169, 195, 169, 195, 169, 195, 169, 195, 169, 195, 169, 195, 169, 195, 169, 195, 169, 195, 169, 195, 169, 195, 169, 195, 169, 195, 169, 195, 169, 195, 169, 195, 169, 195, 169, 195, 169, 195, 169, 195, 169, 195, 169, 195, 169, 195, 169, 195, 169, 195, 169, 195, 169, 195, 169, 195, 169, 195, 169, 195, 169, 195, 169, 195, 169, 195, 169, 195, 169, 195, 169, 195, 169, 195, 169, 195, 169, 195, 169, 195, 169, 195, 169, 195, 169, 195, 169, 195, 169, 195, 169, 195, 169, 195, 169, 195, 169, 195, 169, 195, 169, 195, 169, 195, 169, 195, 169, 195, 169, 195, 169, 195, 169, 195, 169, 195, 169, 195, 169, 195, 169, 195, 169, 195, 169, 195, 169, 195, 169, 195, 169, 195, 169, 195, 169, 195, 169, 195, 169, 195, 169, 195, 169, 195, 169, 195, 169, 195, 169, 195, 169, 195, 169, 195, 169, 195, 169, 195, 169, 195, 169, 195, 169, 195, 169, 195, 169, 195, 169, 195, 169, 195, 169, 195, 169, 195, 169, 195, 169, 195, 169, 195, 169, 195, 169, 195, 169, 195, 169, 195, 169, 195, 169, 195, 169, 195, 169, 195, 169, 195, 169, 195, 169, 195, 169, 195, 169, 195, 169, 195, 169, 195, 169, 195, 169, 195, 169, 195, 169, 195, 169, 195, 169, 195, 169, 195, 169, 195, 169, 195, 169, 195, 169, 195, 169, 195, 169, 195, 169, 195, 169, 195, 169, 195, 169, 195, 169, 195, 169, 195, 169, 195, 169, 195, 169, 195, 169, 195, 169, 195, 169, 195, 169, 195, 169, 195, 169, 195, 169, 195, 169, 195, 169, 195, 169, 195, 169, 195, 169, 195, 169, 195, 169, 195, 169>> }
 =============================================================================
